@@ -7,7 +7,7 @@ p = [json.loads(l) for l in open('/verif/properties.jsonl') if json.loads(l)['id
 wt = "/tmp/wt/%s%s" % (pid, variant)
 print(f"""You are helping test a verification effort by playing the role of a developer who introduces a subtle bug.
 
-Repository: a git worktree of the Rust project `inputlayer` (a Datalog-style incremental rules engine with WAL-backed persistence, provenance and HNSW vector search) at {wt}. Work ONLY inside {wt} (and your output directory). Do not read or write anything under /verif or /repo. There is no network; build with `--offline`. Always set `CARGO_TARGET_DIR={wt}-target` for every cargo command (e.g. `CARGO_TARGET_DIR={wt}-target cargo test --offline --lib some_test_name`), so that you do not collide with other builds. The first build takes several minutes.
+Repository: a git worktree of the Rust project `inputlayer` (a Datalog-style incremental rules engine with WAL-backed persistence, provenance and HNSW vector search) at {wt}. Work ONLY inside {wt} (and your output directory). Do not read or write anything under /verif or /repo. There is no network; build with `--offline`. Always set `CARGO_TARGET_DIR={wt}-target` for every cargo command (e.g. `CARGO_TARGET_DIR={wt}-target cargo test --offline --lib some_test_name`), so that you do not collide with other builds. The first build takes several minutes. Disk space is tight and shared: also set `CARGO_INCREMENTAL=0`, never build all test targets at once (`cargo test --tests` / `--no-run` for everything is forbidden) - run `cargo test --offline --lib` and then individual integration tests by name (`--test <name>`) for the 4-8 test files most related to your change. Do NOT use `git stash` (the stash is shared between worktrees): to test without your change, save it with `git diff -- src > {wt}-my.diff`, revert with `git apply -R`, and re-apply with `git apply`.
 
 The property the project is supposed to satisfy:
 
